@@ -9,7 +9,7 @@
 From stdpp Require Import gmap.
 From DS Require Import Base Decimal Wire StreamValue Config Outcome OutcomeCodec ObservationCodec.
 From DS Require Import RetirementJson.
-From DS Require Import WireProofs StreamValueProofs ConfigProofs OutcomeRoundTrip ObservationRoundTrip RetirementProofs.
+From DS Require Import WireProofs StreamValueProofs ConfigProofs OutcomeRoundTrip ObservationRoundTrip RetirementProofs ReportsNoPanic DecodedObsWf.
 Open Scope Z_scope.
 
 (* stream values: Decimal (any sign incl. negative zero, any int32 scale), Quote, TimestampedStreamValue *)
@@ -37,6 +37,11 @@ Theorem C16_observation_roundtrip : forall rms ups vals ob,
              ro_updates := ro_updates ob; ro_values := ro_values ob |}.
 Proof. exact observation_roundtrip. Qed.
 Print Assumptions C16_observation_roundtrip.
+(* arbitrary bytes: whatever the observation decoder accepts is well-formed (uint32 ids and keys, uint64 timestamp,
+   definitions with uint32 fields, values with int32 scales / uint64 times / nesting <= 2) *)
+Theorem C16_decoded_observation_wf : forall bs ob, decode_observation bs = Ok ob -> bok bs -> raw_obs_wf ob.
+Proof. exact decoded_observation_wf. Qed.
+Print Assumptions C16_decoded_observation_wf.
 Theorem C16_no_duplicate_means_accepted : forall l, List.NoDup l -> has_dup l = false.
 Proof. exact has_dup_nodup. Qed.
 
